@@ -54,7 +54,16 @@ func fnLabel(p *core.Prog, t *trapCtx, n ast.Node) (string, string) {
 }
 
 // C07 decides the trap-site obligations of the parser-reachable code.
+// reviewedPanics: explicit panic statements in parser-reachable functions whose
+// condition cannot be made true by input text, one line of reason each.
+var reviewedPanics = map[string]string{
+	"gts.Join":  "panics only when called with no location; the only parser call is parseJoin with the list of multipleLocationParser, which holds the first parsed location before it loops",
+	"gts.Order": "panics only when called with no location; the only parser call is parseOrder with the list of multipleLocationParser (at least one element, and flattening never empties a list the parser built)",
+}
+
 func C07(p *core.Prog, r *core.Report) {
+	r.Rule("COMMIT", "the GenBank sub-parsers keep their reviewed commit points (state.Clear() turns a failure behind a recognised field name into a hard error instead of a backtracked one), and the feature-table parser only runs after one on every path", 4)
+	r.Rule("PANIC", "every explicit panic(...) statement in a function reachable from the parser entry points is in the reviewed table of panics whose condition input text cannot reach (one reason per function)", 2)
 	r.Rule("IDX", "every index and slice expression the Go compiler's prove pass cannot show in bounds (its bounds-check-elimination report, inlining off) inside code reachable from the parser entry points is discharged by a dominating length guard, the post-condition of an index search (IndexByte/Index), a range key over a collection of the same length, n = len(s)/2 on a non-empty s, or a reviewed layout/shape argument with a fixed site count; constant children of a pars.Result are determined by the parser's shape and excluded", 20)
 	r.Rule("NN", "every count handed to strings.Repeat, bytes.Repeat, make and (*pars.State).Request in parser-reachable code is non-negative: constants, len/cap/copy, sums and products of non-negatives, quotients by positive constants, values on the false side of a dominating `x < 0` test or after a clamp, parameters and captured variables all of whose bindings are non-negative (calls through function values resolved by signature), struct fields all of whose writes are non-negative, and results of functions that are non-negative whenever their arguments are", 12)
 	r.Rule("REQ-ERR", "the error of every (*pars.State).Request in parser-reachable code is tested and returned before the buffer is used (a failed Request leaves a short buffer)", 6)
@@ -124,6 +133,7 @@ func runTraps(p *core.Prog, r *core.Report, reach map[*ssa.Function]bool) {
 	// ---- NN, REQ-ERR, REQ-ADV, RES, MUSTC over reachable syntax
 	bodies := reachableSyntax(reach)
 	nnN := map[string]int{}
+	clears := map[string]int{}
 	seenCall := map[*ast.CallExpr]bool{}
 	for _, fnNode := range bodies {
 		var body *ast.BlockStmt
@@ -212,6 +222,22 @@ func runTraps(p *core.Prog, r *core.Report, reach map[*ssa.Function]bool) {
 				}
 			}
 		}
+		// explicit panics
+		ast.Inspect(body, func(n ast.Node) bool {
+			if fl, ok := n.(*ast.FuncLit); ok && fl.Body != body {
+				return false
+			}
+			if c, ok := n.(*ast.CallExpr); ok && core.IsBuiltin(info, c, "panic") {
+				nnN[label+"|panic"]++
+				key := fmt.Sprintf("%s|panic#%d", label, nnN[label+"|panic"])
+				if why, ok := reviewedPanics[label]; ok {
+					r.Ok("PANIC", key, p.Pos(c.Pos()), "reviewed: "+why)
+				} else {
+					r.Bad("PANIC", key, p.Pos(c.Pos()), "an explicit panic is reachable from the parser entry points and is not in the reviewed table: if its condition can be made true by input text, malformed input crashes the parser instead of producing an error")
+				}
+			}
+			return true
+		})
 		// integer division by a non-constant
 		ast.Inspect(body, func(n ast.Node) bool {
 			if fl, ok := n.(*ast.FuncLit); ok && fl.Body != body {
@@ -229,6 +255,91 @@ func runTraps(p *core.Prog, r *core.Report, reach map[*ssa.Function]bool) {
 			return true
 		})
 		t.advance(info, body, label)
+		t.commit(info, body, label, clears)
+	}
+	for fn, want := range commitPoints {
+		if clears[fn] < want {
+			r.Bad("COMMIT", fn+"|clear", "-", fmt.Sprintf("%d of the %d reviewed commit points (state.Clear()) of this sub-parser remain: without the commit, tryAllParsers backtracks over the error and the record loop skips the malformed line instead of reporting it", clears[fn], want))
+		} else {
+			r.Ok("COMMIT", fn+"|clear", "-", fmt.Sprintf("%d commit point(s)", clears[fn]))
+		}
+	}
+}
+
+// commitPoints: sub-parsers that turn a failure into a hard error by
+// discarding the backtracking stack (state.Clear()) before failing, with the
+// number of such points confirmed by reading.
+var commitPoints = map[string]int{
+	"seqio.GenBankParser":          1, // after the LOCUS line: everything behind it belongs to this record
+	"seqio.genbankFieldNameParser": 2, // uneven indent after a recognised field name (two error returns)
+	"seqio.genbankFeatureParser":   1, // FEATURES header recognised: a malformed table is an error
+}
+
+// commit counts the state.Clear() calls of a body and checks that a feature
+// table parser (a parser value built by INSDCTableParser) only runs after one.
+func (t *trapCtx) commit(info *types.Info, body *ast.BlockStmt, label string, clears map[string]int) {
+	isClear := func(n ast.Node) bool {
+		for _, c := range core.NodeCalls(n) {
+			if core.IsCallTo(info, c, parsPkg+".State.Clear") {
+				return true
+			}
+		}
+		return false
+	}
+	var tableCalls []*ast.CallExpr
+	ast.Inspect(body, func(n ast.Node) bool {
+		if fl, ok := n.(*ast.FuncLit); ok && fl.Body != body {
+			return false
+		}
+		c, ok := n.(*ast.CallExpr)
+		if !ok {
+			return true
+		}
+		if core.IsCallTo(info, c, parsPkg+".State.Clear") {
+			clears[label]++
+		}
+		if id, ok := ast.Unparen(c.Fun).(*ast.Ident); ok {
+			if v, ok := info.Uses[id].(*types.Var); ok {
+				if d := t.nn.outerDecl(body); d != nil {
+					asg := core.Assigns(info, d.Body)
+					if as := asg[v]; len(as) == 1 && as[0].RHS != nil {
+						if oc, ok := ast.Unparen(as[0].RHS).(*ast.CallExpr); ok && core.IsCallTo(info, oc, core.PkgSeqio+".INSDCTableParser") {
+							tableCalls = append(tableCalls, c)
+						}
+					}
+				}
+			}
+		}
+		return true
+	})
+	if len(tableCalls) == 0 || !strings.HasPrefix(label, "seqio.genbank") {
+		return
+	}
+	fl := core.NewFlow(info, body)
+	for i, c := range tableCalls {
+		key := fmt.Sprintf("%s|table-parser#%d", label, i+1)
+		target := fl.Find(c)
+		if !target.Valid() {
+			t.r.Und("COMMIT", key, t.p.Pos(c.Pos()), "call not found in the control-flow graph")
+			continue
+		}
+		reached := false
+		core.Scan(fl, fl.Entry(), 0, core.Stepper[int]{
+			Node: func(s int, n ast.Node) (int, bool) {
+				if fl.Find(n) == target {
+					if !isClear(n) {
+						reached = true
+					}
+					return s, true
+				}
+				return s, isClear(n)
+			},
+		})
+		if reached {
+			t.r.Bad("COMMIT", key, t.p.Pos(c.Pos()), "the feature-table parser can run without a preceding state.Clear(): its error is backtracked by tryAllParsers and a malformed feature table is skipped line by line instead of being reported")
+		} else {
+			t.r.Ok("COMMIT", key, t.p.Pos(c.Pos()), "every path to the table parser passes state.Clear()")
+		}
 	}
 }
 
